@@ -83,7 +83,8 @@ def pairing(ctx, rule, only=None):
             continue
         sc = targets.scan(ctx, q)
         uscan.report_sinks(ctx, lambda cat: rule if cat in ('store-volume', 'store-contents', 'convert-from-unit',
-                                                            'storage-label', 'sum-mix', 'add-units', 'qstr') else None, sc)
+                                                            'storage-label', 'sum-mix', 'add-units', 'qstr',
+                                                            'round-stored-at-user-precision') else None, sc)
     return count
 
 
